@@ -334,3 +334,158 @@ struct C15Fragsize : Monitor {
 	}
 };
 Monitor *mk_c15_fragsize(World *w) { return new C15Fragsize(w); }
+
+// ================================================================== C08
+// Every query name the real client emits: legal, within -M, under the tunnel domain; data chunks
+// carry exactly the next contiguous, non-empty slice of compress2(packet); the server's
+// reassembly buffer holds exactly those bytes after it processed the chunk.
+struct C08Names : Monitor {
+	World *w;
+	int L;
+	Bytes pend_pkt; bool have_pend = false;           // last packet the client read from its tun
+	Bytes Z; size_t off = 0, cur_n = 0; int seq = -1, frag = -1; bool tracking = false; std::string cur_slice_enc;
+	int up_codec = 5;                                 // upstream codec in force (from the server's answer to 's')
+	uint32_t challenge = 0; bool have_challenge = false; int userid = -1;
+	struct SrvCheck { bool armed = false; int uid = 0; Bytes want; int seq = 0, frag = 0; } sc;
+	std::set<std::pair<int, int>> srv_seen;           // (seq, frag) the server has already received for the current packet
+
+	C08Names(World *w) : w(w)
+	{
+		L = 255;
+		if (!w->cfg["clients"].a.empty() && w->cfg["clients"].a[0].geti("maxlen")) L = (int)w->cfg["clients"].a[0].geti("maxlen");
+	}
+
+	void viol(const std::string &clause, const std::string &d) { w->S.violate("C08", clause, d); }
+
+	void on_tun_read(Task &t, const Bytes &p) override
+	{
+		if (w->clients.empty() || &t != w->clients[0].task) return;
+		pend_pkt = p; have_pend = true;
+	}
+
+	void on_send(const Dgram &d, Sock *s) override
+	{
+		if (!s || !s->owner) return;
+		if (s->owner == w->srv) { from_server(d); return; }
+		if (w->clients.empty() || s->owner != w->clients[0].task || is_raw(d.data)) return;
+		DnsMsg m;
+		std::string e = dns_parse_strict(d.data, m);
+		if (!e.empty() || m.qd.size() != 1) { viol("name.malformed", "client query does not parse strictly: " + e); return; }
+		const DnsName &n = m.qd[0].name;
+		std::string dotted = n.dotted();
+		w->probes["c08.names"]++;
+		char b[300];
+		// legal name: labels 1..63 (the strict parser rejects 0 and >63), wire <= 255, presentation <= L
+		if (n.wire_len > 255) { snprintf(b, sizeof b, "name is %zu bytes on the wire", n.wire_len); viol("name.wire_len", b); }
+		std::string data0; char c0 = 0;
+		if (strip_domain(dotted, w->domain, data0) && !data0.empty()) c0 = (char)tolower((unsigned char)data0[0]);
+		bool limited = c0 == 'v' || c0 == 'l' || c0 == 'n' || c0 == 'p' || c0 == 'r' || (c0 >= '0' && c0 <= '9') || (c0 >= 'a' && c0 <= 'f');   // the message kinds the -M limit is stated for
+		if (limited && (int)dotted.size() > L) { snprintf(b, sizeof b, "name has %zu characters, the configured limit is %d: %s", dotted.size(), L, dotted.substr(0, 60).c_str()); viol("name.over_limit", b); }
+		if ((int)dotted.size() >= L - 3) w->probes["c08.near_limit"]++;
+		std::string data;
+		if (!strip_domain(dotted, w->domain, data)) { viol("name.domain", "query name does not end in the tunnel domain at a label boundary: " + dotted.substr(0, 80)); return; }
+		for (auto &l : n.labels) if (l.size() == 63) w->probes["c08.label63"]++;
+		UpQuery u;
+		if (!decode_upquery(dotted, w->domain, u)) { viol("name.undecodable", "query name carries no decodable tunnel message: " + dotted.substr(0, 80)); return; }
+		switch (u.cmd) {
+		case 'v':
+			{ static const uint8_t ver[4] = {0, 0, 5, 2};
+			  if (u.b32.empty() || u.b32.size() > 6 || memcmp(u.b32.data(), ver, std::min<size_t>(4, u.b32.size()))) viol("fields.version", "version message is not a non-empty prefix of protocol 0x00000502 + CMC"); }
+			w->probes["c08.v"]++; break;
+		case 'l':
+			w->probes["c08.l"]++;
+			if (u.b32.empty() || u.b32.size() > 19) { viol("fields.login", "login message decodes to " + std::to_string(u.b32.size()) + " bytes, expected a non-empty prefix of 19"); break; }
+			if (u.b32.size() < 19) w->probes["c08.login_truncated_by_limit"]++;
+			if (have_challenge) {
+				uint8_t h[17]; h[0] = (uint8_t)userid; ref_login(w->cfg["clients"].a[0].gets("password", w->password), challenge, h + 1);
+				if (memcmp(u.b32.data(), h, std::min<size_t>(17, u.b32.size()))) viol("fields.login", "login message is not a prefix of userid + MD5 response for the challenge received");
+			}
+			break;
+		case 'n': {
+			w->probes["c08.n"]++;
+			if (u.b32.size() != 5) { if (u.b32.empty() || u.b32.size() > 5) viol("fields.setfrag", "set-fragsize message decodes to " + std::to_string(u.b32.size()) + " bytes, expected 5"); break; }
+			int f = (u.b32[1] << 8) | u.b32[2];
+			int want = (int)w->cfg["clients"].a[0].geti("fragsize");
+			if (want && f != want) { snprintf(b, sizeof b, "set-fragsize message asks for %d, the client was started with -m %d", f, want); viol("fields.setfrag", b); }
+			if (userid >= 0 && u.b32[0] != userid) viol("fields.setfrag", "set-fragsize message names another userid");
+			break; }
+		case 'p':
+			w->probes["c08.p"]++;
+			if (u.b32.empty() || u.b32.size() > 4) viol("fields.ping", "ping decodes to " + std::to_string(u.b32.size()) + " bytes, expected 4");
+			else if (userid >= 0 && u.b32[0] != userid) viol("fields.ping", "ping names another userid");
+			break;
+		case 'r': w->probes["c08.r"]++; if (userid >= 0 && u.userid != (userid & 15)) viol("fields.probe", "fragsize probe names another userid"); break;
+		case 'd': data_chunk(u, dotted); break;
+		default: break;
+		}
+	}
+
+	void data_chunk(const UpQuery &u, const std::string &dotted)
+	{
+		char b[300];
+		w->probes["c08.d"]++;
+		Bytes slice = codec_decode(up_codec, u.enc_payload);
+		if (slice.empty()) { viol("data.empty", "data query carries no payload bytes: " + dotted.substr(0, 60)); return; }
+		// round trip of the encoded text through the reference codec: detects text outside the alphabet / lossy tails
+		if (codec_encode(up_codec, slice) != (up_codec == 5 ? [&]() { std::string s = u.enc_payload; for (auto &c : s) c = (char)tolower((unsigned char)c); return s; }() : u.enc_payload)) w->probes["c08.noncanonical_tail"]++;
+		bool fresh_packet = !tracking || u.up_seq != seq;
+		if (fresh_packet) {
+			if (!have_pend) { w->probes["c08.untracked_packet"]++; tracking = false; return; }
+			Z = z_compress(pend_pkt); have_pend = false;
+			off = 0; seq = u.up_seq; frag = u.up_frag; tracking = true; srv_seen.clear();
+			if (u.up_frag != 0) { snprintf(b, sizeof b, "first chunk of upstream packet %d is numbered %d", seq, u.up_frag); viol("data.first_fragment", b); }
+			w->probes["c08.packets"]++;
+		} else if (u.up_frag == frag) {
+			// re-send of the current chunk: must be the same slice
+		} else if (u.up_frag == ((frag + 1) & 15)) {
+			if (frag == 15) w->probes["c08.over16"]++;     // the 4-bit counter wraps: beyond what fits, but each name still has to carry the next slice
+			off += cur_n; frag = u.up_frag;
+		} else { snprintf(b, sizeof b, "chunk number went from %d to %d within upstream packet %d", frag, u.up_frag, seq); viol("data.numbering", b); tracking = false; return; }
+		cur_n = slice.size();
+		if (off + cur_n > Z.size() || memcmp(slice.data(), Z.data() + off, cur_n)) {
+			snprintf(b, sizeof b, "chunk %d/%d decodes to %zu bytes that are not the bytes %zu.. of the compressed packet (%zu bytes)", seq, frag, cur_n, off, Z.size());
+			viol("data.slice", b); tracking = false; return;
+		}
+		bool is_last = off + cur_n == Z.size();
+		if ((bool)u.last != is_last) { snprintf(b, sizeof b, "chunk %d/%d ends at byte %zu of %zu but its last-fragment flag is %d", seq, frag, off + cur_n, Z.size(), u.last); viol("data.last_flag", b); }
+		if (!is_last) w->probes["c08.full_chunks"]++; else w->probes["c08.tail_chunks"]++;
+		w->probes["c08.tail_mod." + std::to_string(cur_n % 8)]++;
+	}
+
+	void from_server(const Dgram &d)
+	{
+		if (is_raw(d.data)) return;
+		DnsMsg m; Bytes pl; UpQuery u;
+		if (!dns_parse_strict(d.data, m).empty() || m.qd.empty() || !answer_payload(m, pl)) return;
+		if (!decode_upquery(m.qd[0].name.dotted(), w->domain, u)) return;
+		if (u.cmd == 'v' && pl.size() >= 9 && !memcmp(pl.data(), "VACK", 4)) { challenge = ((uint32_t)pl[4] << 24) | (pl[5] << 16) | (pl[6] << 8) | pl[7]; userid = pl[8]; have_challenge = true; }
+		if (u.cmd == 's') { std::string s(pl.begin(), pl.end()); int c = codec_from_name(s); if (c) { up_codec = c; w->probes["c08.codec." + s]++; } }
+	}
+
+	void on_recv(Task &t, const Dgram &d) override
+	{
+		if (&t != w->srv || !tracking || is_raw(d.data)) return;
+		DnsMsg m; UpQuery u;
+		if (!dns_parse_strict(d.data, m).empty() || m.qd.empty() || !decode_upquery(m.qd[0].name.dotted(), w->domain, u) || u.cmd != 'd') return;
+		if (u.up_seq != seq || u.up_frag != frag || u.last) return;          // only the chunk currently tracked; a completed packet is judged by C01/C02
+		if (!srv_seen.insert({u.up_seq, u.up_frag}).second) return;
+		sc.armed = true; sc.uid = u.userid; sc.seq = seq; sc.frag = frag;
+		sc.want.assign(Z.begin(), Z.begin() + off + cur_n);
+	}
+
+	void on_block(Task &t) override
+	{
+		if (&t != w->srv || !sc.armed) return;
+		sc.armed = false;
+		UserView v;
+		if (!peek_user(sc.uid, v) || v.in.seqno != sc.seq || v.in.fragment != sc.frag) return;   // the server moved on within the same step
+		Bytes got = peek_inpacket(sc.uid);
+		w->probes["c08.srv_prefix_checked"]++;
+		if (got != sc.want) {
+			char b[240]; snprintf(b, sizeof b, "after chunk %d/%d the server's reassembly buffer holds %zu bytes, the chunks sent so far carry %zu%s", sc.seq, sc.frag, got.size(), sc.want.size(),
+					      got.size() == sc.want.size() ? " (different bytes)" : "");
+			viol("server.extraction", b);
+		}
+	}
+};
+Monitor *mk_c08_names(World *w) { return new C08Names(w); }
